@@ -142,10 +142,12 @@ package verifspec
 
 // ---- reading.  `verified` records that the gzip trailer (CRC-32 and length) has been compared with the data read:
 // a gzip.Reader does that only when a Read reaches the end of the stream; Close does not.
+// gzr is the gzip reader made for the entry: only reading *that* reader to its end compares the trailer.
 //@ extern compress/gzip.NewReader
 //@   param r
 //@   results zr err
 //@   assigns nothing
+//@   ghost gzr = ref(zr)
 //@   ensures err == nil ==> zr != nil
 //@ extern compress/gzip.Reader.Close
 //@   param z
@@ -170,7 +172,7 @@ package verifspec
 //@   param dst src
 //@   results n err
 //@   assigns verified
-//@   ensures err == nil ==> verified
+//@   ensures err == nil && ref(src) == gzr ==> verified
 //@   ensures old(verified) ==> verified
 
 // deserialize: an entry is accepted (err == nil, !old) only if it is not older than the sources, the payload reader ran
@@ -179,6 +181,7 @@ package verifspec
 //@ func build/cache.BuildCache.deserialize
 //@ property C20
 //@   ghost verified = false
+//@   ghost gzr = 0
 //@   ghost readCalled = false
 //@   ghost readOK = false
 //@   ensures err == nil && !old ==> readCalled && readOK && !timeAfter(srcModTime.wall, srcModTime.ext, buildTime.wall, buildTime.ext)
@@ -191,6 +194,7 @@ package verifspec
 //@ property C20
 //@   recv_may_be_nil
 //@   ghost verified = false
+//@   ghost gzr = 0
 //@   ghost readCalled = false
 //@   ghost readOK = false
 //@   ensures (bc == nil || (len(importPath) > 0 && (importPath == bc.TestedPackage || importPath == bc.TestedPackage + "_test"))) ==> !result && !readCalled
